@@ -75,6 +75,22 @@ def run(chk):
         cases.append('r%d api %s %d %s - %s' % (k, font, opts, src, ' '.join(pre + ['info'] + sup + [probe] + sup + ['info'])))
         cases.append('h%d api %s %d %s - %s' % (k, font, opts, src, ' '.join(pre + ['info'] + sup + hist + [probe] + sup + ['info'])))
         meta.append((font, opts, len(hist)))
+    # texts on which shaping gives up (a rule program dies): whatever the failed call leaves behind on the face must not change what the
+    # same or another text gives afterwards
+    dying = apiseq.dying_chars(hexe, S.FONTS)
+    chk.notes.append('fonts with characters on which gr_make_seg gives up: %s' % {f: len(v) for f, v in dying.items()})
+    for font, dcs in sorted(dying.items()):
+        rep = S.repertoire(vlib.REPO, font)
+        for k in range(12 if thorough else 4):
+            dc = rng.choice(dcs)
+            others = [rng.choice(rep) for _ in range(3)]
+            ptxt = rng.choice(([dc], [others[0], dc], [dc, others[1]], others, [others[0]]))
+            probe = 'seg:2:32:0:-:-:%s' % ''.join('%08x' % c for c in ptxt)
+            hist = ['seg:1:32:0:-:-:%s' % ''.join('%08x' % c for c in rng.choice(([dc], [dc, others[2]], [others[1], dc]))) for _ in range(rng.choice((1, 3, 6, 10)))]       # several failures in a row: each may leave its own trace
+            o, src = rng.randrange(8), rng.choice(('cb', 'file'))
+            cases.append('r%sd.%d api %s %d %s - %s' % (font[:4], k, font, o, src, ' '.join(['info', probe, 'info'])))
+            cases.append('h%sd.%d api %s %d %s - %s' % (font[:4], k, font, o, src, ' '.join(['info'] + hist + [probe, 'info'])))
+            meta.append((font, o, len(hist)))
     # hinted fonts: one gr_font with an advance callback shared by a history of the repository's own test lines (kerning, collision and
     # attachment contexts) and a probe line; whatever the font object remembers per glyph must not depend on the slot that asked first
     for font in ('Scheherazadegr.ttf', 'Awami_test.ttf', 'charis_r_gr.ttf', 'Padauk.ttf', 'Annapurnarc2.ttf'):
